@@ -50,10 +50,19 @@ package fasthttp
 //@   ensures[files-removed] old(req.multipartForm) != nil ==> removedAll
 //@   ensures[form-dropped] req.multipartForm == nil
 
+//   C04: the body stream of a client response is closed (by resetSkipHeader -> ResetBody -> closeBodyStream) while
+//   the header still describes it: the close callback decides from Content-Length / chunked framing whether the body
+//   was read to its end, i.e. whether the connection may go back to the pool.
 //@ func Response.Reset
-//@   property C11
+//@   property C11 C04
 //@   mode skeleton
 //@   fields Response
+//@   ghost headerCleared bool = false
+//@   on call ResponseHeader.Reset:
+//@     effect headerCleared = true
+//@   on call Response.resetSkipHeader:
+//@     requires[body-stream-closed-while-the-header-still-describes-it] @C04 !headerCleared
+//@   end
 //@   class w kept: the body-writer adapter holds only a back pointer to the response itself
 //@   class secureErrorLogMessage kept: server configuration copied into the response, not response state
 //@   class keepBodyBuffer kept: buffer-ownership mode chosen by the owner of the response
